@@ -9,6 +9,7 @@
 #include "vh.hpp"
 #include "gen.hpp"
 #include "oracle.hpp"
+#include "local_mesh_refiner.hpp"
 #include "time_integration.hpp"
 #include <omp.h>
 #include <cstring>
@@ -69,7 +70,7 @@ static int cmd_integrate(const Args& a) {
         J vobs; bool vobs_set = false;
         auto flag = [&](const std::string& key, const std::string& msg) { for (auto& kv : found) if (kv.first == key) return false; found.push_back({key, msg}); return true; };
         std::vector<cell_ptr> cells; std::vector<int> cls; std::vector<double> rho; std::vector<long> live; std::vector<R> mass; std::vector<char> is_static;
-        bool built = true; long total_free = 0, nonstatic_cells = 0;
+        bool built = true; long total_free = 0, nonstatic_cells = 0, splits_after_volume = 0;
         try {
             for (int k = 0; k < ncells; k++) {
                 gen::TriMesh m = gen::random_shape(g, 160);
@@ -83,6 +84,10 @@ static int cmd_integrate(const Args& a) {
                 int cl = g.range(0, 4);
                 auto ct = gen::default_cell_type(3, (short)k); ct->mass_density_ = rho0 * g.logu(0.1, 10);
                 cell_ptr cp = gen::make_cell_of_class(cl, m, (unsigned)k, ct); cp->set_local_id((unsigned)k);
+                // a third of the cells are remeshed after their volume was last computed (the refinement phase runs before the force phase, the divider
+                // refines daughters): 1-3 edge splits change the number of live nodes, not the enclosed volume
+                if (g.coin(0.33)) { local_mesh_refiner lmr(1e-9 * L, 1e9 * L, false); edge_set dummy; const int ns = g.range(1, 3);
+                    for (int e = 0; e < ns; e++) { const auto& es = cell_tester::edges(*cp); auto it = es.begin(); std::advance(it, (long)(g.u64() % es.size())); edge ed = *it; dummy.clear(); lmr.split_edge(ed, cp, dummy); } splits_after_volume++; }
                 cells.push_back(cp); cls.push_back(cl); rho.push_back(ct->mass_density_);
             }
         } catch (const std::exception& e) { built = false; }
@@ -319,7 +324,7 @@ static int cmd_integrate(const Args& a) {
         // ---- bookkeeping ----------------------------------------------------------------------------------
         long n_static = 0; for (int k = 0; k < ncells; k++) { agg.bin(CFG + ":cells_of_class:" + CLS[cls[k]]); if (is_static[k]) n_static++; }
         c.nontrivial = nonstatic_cells > 0 && resolvable > 0; c.sig = sig;
-        agg.bin(CFG + ":populations"); agg.bin(CFG + ":calls", nsteps); agg.bin(CFG + ":threads=" + std::to_string(omp_get_max_threads()));
+        agg.bin(CFG + ":populations"); agg.bin(CFG + ":cells_remeshed_after_volume", splits_after_volume); agg.bin(CFG + ":calls", nsteps); agg.bin(CFG + ":threads=" + std::to_string(omp_get_max_threads()));
         agg.bin(CFG + ":uncoupled_node_steps_checked", node_steps); agg.bin(CFG + ":coupled_pair_steps_checked", pair_steps); agg.bin(CFG + ":coupled_pairs", (long)pairs.size()); agg.bin(CFG + ":junction_steps_checked", triple_steps); agg.bin(CFG + ":junctions", (long)triples.size());
         agg.bin(CFG + ":populations_with_coupled_pairs", pairs.empty() ? 0 : 1);
         agg.bin(CFG + ":static_cells", n_static); agg.bin(CFG + ":static_node_steps_checked", static_nodes);
